@@ -30,7 +30,8 @@ TcpServer::TcpServer(EventLoop* loop,
     threadPool_(new EventLoopThreadPool(loop, name_)),
     connectionCallback_(defaultConnectionCallback),
     messageCallback_(defaultMessageCallback),
-    nextConnId_(1)
+    nextConnId_(1),
+    alive_(new int(0))
 {
   acceptor_->setNewConnectionCallback(
       std::bind(&TcpServer::newConnection, this, _1, _2));
@@ -40,6 +41,9 @@ TcpServer::~TcpServer()
 {
   loop_->assertInLoopThread();
   LOG_TRACE << "TcpServer::~TcpServer [" << name_ << "] destructing";
+  // removeConnectionInLoop() functors still queued in (or yet to reach) the
+  // base loop find the token expired and leave the server alone
+  alive_.reset();
 
   for (auto& item : connections_)
   {
@@ -93,7 +97,8 @@ void TcpServer::newConnection(int sockfd, const InetAddress& peerAddr)
   conn->setMessageCallback(messageCallback_);
   conn->setWriteCompleteCallback(writeCompleteCallback_);
   conn->setCloseCallback(
-      std::bind(&TcpServer::removeConnection, this, _1)); // FIXME: unsafe
+      std::bind(&TcpServer::removeConnectionGuarded,
+                std::weak_ptr<void>(alive_), this, loop_, _1));
   ioLoop->runInLoop(std::bind(&TcpConnection::connectEstablished, conn));
 }
 
@@ -101,6 +106,28 @@ void TcpServer::removeConnection(const TcpConnectionPtr& conn)
 {
   // FIXME: unsafe
   loop_->runInLoop(std::bind(&TcpServer::removeConnectionInLoop, this, conn));
+}
+
+void TcpServer::removeConnectionGuarded(const std::weak_ptr<void>& alive,
+                                        TcpServer* server,
+                                        EventLoop* baseLoop,
+                                        const TcpConnectionPtr& conn)
+{
+  // io thread: the base loop outlives the io threads, the server may not
+  baseLoop->runInLoop(
+      std::bind(&TcpServer::removeConnectionIfAlive, alive, server, conn));
+}
+
+void TcpServer::removeConnectionIfAlive(const std::weak_ptr<void>& alive,
+                                        TcpServer* server,
+                                        const TcpConnectionPtr& conn)
+{
+  if (!alive.expired())
+  {
+    server->removeConnectionInLoop(conn);
+  }
+  // else: ~TcpServer found the connection in its map and has queued
+  // connectDestroyed() for it already
 }
 
 void TcpServer::removeConnectionInLoop(const TcpConnectionPtr& conn)
